@@ -102,7 +102,10 @@ Inductive jpred :=
 Fixpoint eval_jpred (r : row) (p : jpred) : bool :=
   match p with
   | JTrue => true
-  | JColEq c1 c2 => eval_cmp OEq (nth c1 r VNull) (nth c2 r VNull)
+  | JColEq c1 c2 =>
+      (* a NULL join key matches nothing (what the hash and index joins implement) *)
+      negb (is_null (nth c1 r VNull)) && negb (is_null (nth c2 r VNull)) &&
+      eval_cmp OEq (nth c1 r VNull) (nth c2 r VNull)
   | JCmp c o lit => eval_cmp o (nth c r VNull) lit
   | JAnd p q => eval_jpred r p && eval_jpred r q
   end.
